@@ -201,7 +201,14 @@ func checkC09(r *core.Run) {
 				continue
 			}
 			r.Fn(f)
-			for _, c := range stringConstsIn(f) {
+			// the statement text: in the querying function or in a helper of the package it calls to build it
+			texts := stringConstsIn(f)
+			for _, cs := range w.Calls(f) {
+				if h := w.Info(cs.Static); h != nil && h.Pkg == f.Pkg && h != f {
+					texts = append(texts, stringConstsIn(h)...)
+				}
+			}
+			for _, c := range uniq(texts) {
 				if firstWord(c) != "SELECT" {
 					continue
 				}
